@@ -11,6 +11,7 @@ aggregate values; calling them is a call of `Fn::call`), coroutines (async fn bo
 members of a recursive cycle, and whatever the `stop` predicate names (the anchors a rule wants to see as calls).
 Unwind edges of inlined code are dropped (the CFG used by the rules ignores unwinding)."""
 import copy
+import re
 
 from . import mir as M
 from . import thread as T
@@ -42,6 +43,62 @@ def _rename_term(t, loff, boff):
         t["targets"] = [[v, bb + boff] for v, bb in t["targets"]]
 
 
+def _mentioned(o, acc, consts=False):
+    """fn items (and, with `consts`, named constants) that appear as operands"""
+    if isinstance(o, dict):
+        if o.get("k") == "const":
+            if o.get("fn_path"):
+                acc.add(o.get("inst_path") or o["fn_path"])
+            if consts and o.get("uneval"):
+                acc.add(o["uneval"])
+            return
+        for v in o.values():
+            _mentioned(v, acc, consts)
+    elif isinstance(o, list):
+        for v in o:
+            _mentioned(v, acc, consts)
+
+
+def _is_const_item(fact):
+    return str(fact.get("kind") or "").lower().startswith(("const", "static", "assocconst", "inlineconst"))
+
+
+def _erased(ty):
+    """a type's text without lifetimes and binders (to compare a function pointer type with a function's signature)"""
+    t = re.sub(r"for<[^>]*>\s*", "", ty or "")
+    t = re.sub(r"'\w+", "", t)
+    t = re.sub(r"\s+", "", t)
+    for _ in range(3):
+        t = t.replace("<,", "<").replace(",,", ",").replace(",>", ">").replace("<>", "")
+    return t.replace("&mut", "&mut ")
+
+
+def _fn_pointer_signature(ty):
+    """(parameter types, return type) of `fn(A, B) -> R` (erased), None for anything else"""
+    t = _erased(ty)
+    if not t.startswith("fn("):
+        return None
+    depth, i = 0, 2
+    for i in range(2, len(t)):
+        depth += t[i] in "(<[" 
+        depth -= t[i] in ")>]"
+        if depth == 0:
+            break
+    inner, rest = t[3:i], t[i + 1:]
+    params, cur, depth = [], "", 0
+    for ch in inner:
+        if ch == "," and depth == 0:
+            params.append(cur)
+            cur = ""
+            continue
+        depth += ch in "(<["
+        depth -= ch in ")>]"
+        cur += ch
+    if cur:
+        params.append(cur)
+    return params, (rest[2:] if rest.startswith("->") else "()")
+
+
 def recursive_fns(crate, without=None):
     """paths of functions of the crate that lie on a call cycle (resolved callees, closures attributed to their parent); with
     `without`, edges into that function are ignored"""
@@ -57,6 +114,12 @@ def recursive_fns(crate, without=None):
             for p in {M.Body.callee(t), M.Body.callee_decl(t)}:
                 if p and crate.body(p) is not None and p != without:
                     graph.setdefault(owner, set()).add(p)
+        # functions used as values and named constants (tables of function pointers): what is mentioned can be called
+        ment = set()
+        _mentioned(b["mir"]["blocks"], ment, True)
+        for p in ment:
+            if crate.body(p) is not None and p != without and p != owner:
+                graph.setdefault(owner, set()).add(p)
     rec = set()
     for start in graph:
         seen, st = set(), list(graph.get(start, ()))
@@ -304,6 +367,188 @@ class Inliner:
             return None
         return cpath, cb, list(t["args"])
 
+    def _holds_callables(self, ty):
+        """can a value of this type carry a function of the crate (function pointer, trait object, generic, or a type of the crate
+        that has such a member)?"""
+        if not hasattr(self, "_callable_adts"):
+            self._callable_adts = set()
+            adts = list(self.crate.items.get("structs", [])) + list(self.crate.items.get("enums", []))
+            raw = lambda ty_: any(w in ty_ for w in ("fn(", "dyn ", "Fn(", "FnMut(", "FnOnce(", "impl "))
+            changed = True
+            while changed:
+                changed = False
+                for a in adts:
+                    if a["path"] in self._callable_adts:
+                        continue
+                    for v in a.get("variants", []):
+                        for fl in v.get("fields", []):
+                            ty_ = fl.get("ty") or ""
+                            if raw(ty_) or re.fullmatch(r"[A-Z]\w{0,2}", ty_.replace("&mut ", "").replace("&", "").strip()) \
+                                    or any(c in ty_ for c in self._callable_adts):
+                                self._callable_adts.add(a["path"])
+                                changed = True
+        t = ty or "?"
+        if t == "?" or any(w in t for w in ("fn(", "dyn ", "Fn(", "FnMut(", "FnOnce(", "impl ", "{closure")):
+            return True
+        if re.search(r"(^|[<(&, ])[A-Z]\w{0,2}($|[>), ])", t):
+            return True      # a generic parameter
+        return any(c in t for c in self._callable_adts)
+
+    def _tables_mentioned_from(self, p):
+        """named constants mentioned by a function of the crate and by what it mentions"""
+        found = set()
+        seen, st = set(), [p]
+        while st:
+            x = st.pop()
+            if x in seen:
+                continue
+            seen.add(x)
+            xb = self.crate.body(x)
+            if xb is None or not xb.get("mir"):
+                continue
+            acc = set()
+            _mentioned(xb["mir"]["blocks"], acc, True)
+            for y in acc:
+                yb = self.crate.body(y)
+                if yb is not None and _is_const_item(yb):
+                    found.add(("const", y))
+                elif yb is not None:
+                    st.append(y)
+        return found
+
+    def _tables_behind(self, B, op, depth=0):
+        """the named constants / function items / closure literals a value can have been taken from (through lookups: a call's result
+        is taken to come from its arguments and from what the callee mentions); None when it can come from somewhere else"""
+        found = set()
+        for o in M.trace(B, op, M.IDENTITY_CALLS):
+            if o.kind == "const":
+                if o.const.get("uneval"):
+                    found.add(("const", o.const["uneval"]))
+                elif o.const.get("fn_path"):
+                    found.add(("fn", o.const.get("inst_path") or o.const["fn_path"]))
+            elif o.kind == "aggregate":
+                if o.rv.get("closure") and not o.rv.get("ops"):
+                    found.add(("closure", o.rv["closure"]))
+                    continue
+                if o.rv.get("closure"):
+                    found |= self._tables_mentioned_from(o.rv["closure"])    # a predicate / projection handed to a lookup
+                for a in o.rv.get("ops", []):
+                    r = self._tables_behind(B, a, depth + 1) if depth < 6 else None
+                    if r is None:
+                        return None
+                    found |= r
+            elif o.kind == "call" and "l" in (o.term.get("dest") or {}) and not self._holds_callables(B.locals[o.term["dest"]["l"]].get("ty")):
+                continue     # what it returns (a string, a number, ..) cannot carry a function
+            elif o.kind == "call" and depth < 8:
+                for p in {M.Body.callee(o.term), M.Body.callee_decl(o.term)}:
+                    if p and self.crate.body(p) is not None:
+                        found |= self._tables_mentioned_from(p)
+                for a in o.term.get("args", []):
+                    r = self._tables_behind(B, a, depth + 1)
+                    if r is None:
+                        return None
+                    found |= r
+            elif o.kind in ("arg", "upvar", "unknown"):
+                l = getattr(o, "local", None)
+                ty = B.locals[l].get("ty") if l is not None and l < len(B.locals) else None
+                if self._holds_callables(ty):
+                    return None
+            elif o.kind == "op":
+                continue
+            else:
+                return None
+        return found
+
+    def _table_entries(self, path, seen=None):
+        """function items and closure literals (without captures) in the initialiser of a named constant, nested constants included"""
+        seen = seen if seen is not None else set()
+        if path in seen:
+            return {}
+        seen.add(path)
+        cb = self.crate.body(path)
+        out = {}
+        if cb is None or not cb.get("mir"):
+            return out
+        acc = set()
+        _mentioned(cb["mir"]["blocks"], acc, True)
+        for y in acc:
+            yb = self.crate.body(y)
+            if yb is None or not yb.get("mir"):
+                continue
+            if _is_const_item(yb):
+                out.update(self._table_entries(y, seen))
+            elif not yb.get("closure") and not yb["mir"].get("coroutine"):
+                out[y] = ("fn", yb)
+        for blk in cb["mir"]["blocks"]:
+            for st in blk["stmts"]:
+                if st["k"] == "assign" and st["rv"]["k"] == "aggregate" and st["rv"].get("closure") and not st["rv"].get("ops"):
+                    yb = self.crate.body(st["rv"]["closure"])
+                    if yb is not None and yb.get("mir"):
+                        out[st["rv"]["closure"]] = ("closure", yb)
+        return out
+
+    def _devirtualise(self, out, blk, t):
+        """a call through a function pointer whose value was looked up in tables of the crate (named constants holding function items
+        and closures without captures): the callee is one of the entries whose signature fits. The call becomes a choice (a switch on
+        a value nothing is known about) between direct calls of the candidates, which the inliner then takes in. A pointer that can
+        come from anywhere else (a parameter, a member) is left alone."""
+        f = t.get("func") or {}
+        if f.get("k") not in ("copy", "move") or t.get("devirtualised"):
+            return None
+        m = out["mir"]
+        ty = m["locals"][f["p"]["l"]].get("ty") if not f["p"].get("proj") else None
+        sig = _fn_pointer_signature(ty) if ty else None
+        if sig is None:
+            return None
+        srcs = self._tables_behind(M.Body(out), f)
+        if not srcs:
+            return None
+        entries = {}
+        for kind, p in srcs:
+            if kind == "const":
+                entries.update(self._table_entries(p))
+            else:
+                cb = self.crate.body(p)
+                if cb is not None and cb.get("mir"):
+                    entries[p] = (kind, cb)
+        n = len(t.get("args", []))
+        cands = []
+        for p, (kind, cb) in sorted(entries.items()):
+            cm = cb["mir"]
+            own = cm["arg_count"] - (1 if kind == "closure" else 0)
+            if own != n or len(sig[0]) != n:
+                continue
+            first = 2 if kind == "closure" else 1
+            ptys = [_erased(cm["locals"][first + k].get("ty")) for k in range(n)]
+            if ptys != sig[0] or _erased(cm["locals"][0].get("ty")) != sig[1]:
+                continue
+            cands.append((p, kind))
+        if not cands or len(cands) > 12:
+            return None
+        sp = t.get("sp")
+        sel = len(m["locals"])
+        m["locals"].append({"i": sel, "ty": "usize", "user": False, "from": "devirtualised"})
+        new_blocks = []
+        for p, kind in cands:
+            ct = copy.deepcopy(t)
+            ct["devirtualised"] = True
+            stmts = []
+            if kind == "fn":
+                ct["func"] = {"k": "const", "ty": "devirtualised", "fn_path": p, "inst_path": p, "gargs": [], "text": p}
+            else:
+                tmp = len(m["locals"])
+                m["locals"].append({"i": tmp, "ty": ty, "user": False, "from": "devirtualised"})
+                stmts.append({"k": "assign", "p": {"l": tmp}, "rv": {"k": "aggregate", "ak": "closure", "closure": p, "ops": []}, "sp": sp})
+                ct["func"] = {"k": "move", "p": {"l": tmp}}
+            nb = {"i": len(m["blocks"]), "stmts": stmts, "term": ct}
+            if blk.get("from"):
+                nb["from"] = blk["from"]
+            m["blocks"].append(nb)
+            new_blocks.append(nb["i"])
+        blk["term"] = {"k": "switch", "discr": {"k": "copy", "p": {"l": sel}}, "targets": [[k, b_] for k, b_ in enumerate(new_blocks[:-1])],
+                       "otherwise": new_blocks[-1], "sp": sp, "devirtualised": [p for p, _ in cands]}
+        return new_blocks
+
     def _callee_fact(self, t):
         f = t.get("func") or {}
         if f.get("k") != "const":
@@ -346,6 +591,11 @@ class Inliner:
             indirect = None
             if cb is None and self.closures:
                 indirect = self._indirect_callee(out, t)
+                if indirect is None:
+                    again = self._devirtualise(out, blk, t)
+                    if again is not None:
+                        work.extend((b, depth) for b in again)
+                        continue
             if indirect is not None:
                 p, cb, rest = indirect
                 # the closure's own environment parameter: an empty closure value, by reference
